@@ -279,9 +279,110 @@ CHECKS["C20"] = {
     "assumptions": ASSUME_COMMON + ["ast.parse decides syntactic validity"],
 }
 
+CHECKS["C15"] = {
+    "level": "exploration",
+    "shards": {"quick": 16, "thorough": 32},
+    "budget": {"quick": 50, "thorough": 420},
+    "rule": "six workloads (expression-sized arrays, bit-fields+enums incl. dumping, unions with member assignment, "
+            "dereferenced pointers, nested arrays of structures with null-terminated wchar, LEB128 parse+dump) x "
+            "{compiled, interpreted}; 2-3 threads run jobs on independent streams with shared type objects under a "
+            "deterministic scheduler that makes every source line of the library (thorough: every bytecode instruction "
+            "of expression.py/bitbuffer.py) a yield point; ALL single-preemption schedules (both starting threads) are "
+            "enumerated, plus random 2-6-preemption schedules with 2 and 3 threads (thorough: all two-preemption "
+            "schedules of the small workloads) and a free-running stress run; one evaluation = one schedule; a "
+            "schedule is non-trivial when a switch actually happened at a library yield point",
+    "anchors": ["expression.py", "types/base.py", "types/structure.py", "bitbuffer.py"],
+    "required_reach": ["expression.py:Expression.evaluate", "types/base.py:BaseArray._read",
+                       "types/structure.py:StructureMetaType._read", "bitbuffer.py:BitBuffer.read",
+                       "types/pointer.py:Pointer.dereference", "types/structure.py:Union._rebuild", "<compiled>"],
+    "required_cells": ["workload:expr:compiled", "workload:expr:interpreted", "workload:bits:compiled",
+                       "workload:union:interpreted", "workload:ptr:compiled", "workload:nested:interpreted",
+                       "workload:leb:compiled"],
+    "assumptions": ASSUME_COMMON + ["context switches are modelled at source-line granularity (CPython can switch "
+                                    "between bytecodes; thorough adds instruction granularity for the evaluator and the "
+                                    "bit buffer)"],
+}
+
+CHECKS["C16"] = {
+    "level": "exploration",
+    "shards": {"quick": 16, "thorough": 32},
+    "budget": {"quick": 40, "thorough": 300},
+    "rule": "the full product target kind {scalar, float, char, struct, pointer-to-pointer} x pointer type "
+            "{uint8,16,24,32,48,64} x endian x alignment x reader is instantiated on every run: a structure with a "
+            "pointer, following fields and an array of pointers is placed in a stream at a random base together with "
+            "encoded targets at the stored absolute addresses; a recording stream observes dereferences (position "
+            "restored, second dereference without stream events), arithmetic, dumps, null / stream-less / out-of-range "
+            "/ beyond-the-stream addresses; distinct = (definition, configuration, stream contents, pointer index)",
+    "anchors": ["types/pointer.py", "cstruct.py", "compiler.py"],
+    "required_reach": ["types/pointer.py:Pointer._read", "types/pointer.py:Pointer._write",
+                       "types/pointer.py:Pointer.dereference", "types/pointer.py:Pointer.__default__",
+                       "types/pointer.py:Pointer.__add__", "cstruct.py:cstruct._make_pointer", "<compiled>"],
+    "required_cells": ["width:uint8", "width:uint16", "width:uint24", "width:uint32", "width:uint48", "width:uint64",
+                       "target:char", "target:struct", "target:ptrptr", "reader:compiled", "reader:interpreted",
+                       "endian:>"],
+    "assumptions": ASSUME_COMMON,
+}
+
+CHECKS["C11"] = {
+    "level": "exploration",
+    "shards": {"quick": 16, "thorough": 32},
+    "budget": {"quick": 45, "thorough": 400},
+    "rule": "union-centred definitions (2-4 members: scalars of every width, arrays, char arrays, nested structures "
+            "with bit-fields, anonymous structures, enums, pointers; as top-level union, named field or anonymous "
+            "member of a structure) x endian x alignment x reader; after parsing and after every step of a random "
+            "assignment history (direct member, nested field through the proxy, anonymous-structure field incl. "
+            "two-level attribute forwarding, whole-array replacement) every member must equal the reference parse of a "
+            "shadow byte buffer and dumps() must equal it on data bits; an in-situ monitor on Union._rebuild checks "
+            "buffer length and member coherence after every mutation; distinct = (definition, config, input, history)",
+    "anchors": ["types/structure.py"],
+    "required_reach": ["types/structure.py:UnionMetaType._read_fields", "types/structure.py:Union._update",
+                       "types/structure.py:Union.__setattr__", "types/structure.py:Union._rebuild",
+                       "types/structure.py:Union._proxify", "types/structure.py:UnionProxy.__setattr__",
+                       "types/structure.py:UnionMetaType._write",
+                       "types/structure.py:UnionMetaType._calculate_size_and_offsets"],
+    "required_cells": ["align:True", "align:False", "shape:top", "shape:field", "shape:anon", "route:direct",
+                       "route:nested-via-proxy", "route:anonymous-struct-field", "route:array-replace"],
+    "assumptions": ASSUME_COMMON + ["an assignment writes the member's full encoding (its padding as zero) into the "
+                                    "union's bytes"],
+}
+
 NOT_APPLICABLE = {}
 
 MANIFEST_TEXT = {
+    "C11": {
+        "text": "History-based runtime monitoring of real union objects: a shadow byte buffer (the sequential "
+                "specification) is updated alongside random assignment histories over all routes, and after every "
+                "step every member view and dumps() are compared with it; a hook on Union._rebuild additionally "
+                "asserts buffer length and member/buffer coherence after every mutation anywhere. Held-on-observed; "
+                "the known dump defect K1 is classified bitwise.",
+        "design_ref": "DESIGN.md 4 C11",
+        "note": "dynamic unions are outside the property (fixed-size unions only); NaN-containing states skip the dump "
+                "comparison",
+        "technique": "shadow-model history checking + invariant hook on Union._rebuild",
+    },
+    "C16": {
+        "text": "Recording-stream monitoring of real pointer fields over the complete product of target kind x pointer "
+                "width (8-64 bit incl. 24/48) x endianness x alignment x reader: integer value, width, dereference "
+                "against a reference parse of the target at the absolute address, stream position and event log "
+                "around first and repeated dereference, arithmetic, dump, and the null / stream-less / out-of-range "
+                "cases. Held-on-observed (addresses and contents are sampled).",
+        "design_ref": "DESIGN.md 4 C16",
+        "note": "non-struct pointer types (uint24/uint48) fall back to the interpreted reader after fix; the reader "
+                "cell counts the mode actually used",
+        "technique": "recorded stream event log around dereference + reference parse of the target",
+    },
+    "C15": {
+        "text": "Systematic schedule exploration of real threads running the real library: a sys.monitoring-based "
+                "deterministic scheduler turns every library source line into a yield point; for six workloads in both "
+                "reader modes every single-preemption schedule is executed (exhaustive for that bound), plus random "
+                "multi-preemption schedules with 2-3 threads (and all two-preemption schedules of the small workloads "
+                "in thorough); each thread's result must equal its sequential result. The schedules, yield points and "
+                "distinct switch points seen are reported.",
+        "design_ref": "DESIGN.md 4 C15",
+        "note": "bounded preemptions at line granularity; a thread that never reaches a yield point makes the run "
+                "inconclusive",
+        "technique": "deterministic thread scheduler on sys.monitoring LINE events, bounded-preemption enumeration",
+    },
     "C20": {
         "text": "The real stub generator is run on generated definition sets and on a list of special forms; ast.parse "
                 "decides validity, and the declared names, structure field annotations and enum members are compared "
